@@ -97,6 +97,19 @@ CHECKS = {
         "drivers": [fsync("fetch", 30, 250, 3, 8), fsync("fork", 15, 100, 2, 4)],
         "assumptions": FS_ASSUMPTIONS,
     },
+    "C14": {
+        "trace_module": "Trace_Difficulty",
+        "mc": [{"module": "MC_Difficulty", "cfg": {"quick": "MC_Difficulty_quick.cfg", "thorough": "MC_Difficulty.cfg"},
+                "timeout": {"quick": 600, "thorough": 3000}, "workers": 8}],
+        "drivers": [{"name": "difficulty", "driver": "difficulty", "args": [], "trace_module": "Trace_Difficulty",
+                     "n": {"quick": 12000, "thorough": 150000}, "procs": {"quick": 4, "thorough": 12}},
+                    dict(peersync("honest", 30, 200, 1, 4), trace_module="Trace_PeerSync")],
+        "assumptions": COMMON_ASSUMPTIONS + [
+            "block difficulties on the grid are the small integers that survive difficulty_to_compact / compact_to_difficulty unchanged (1..40)",
+            "'reject totals outside the envelope' is read as the property lists it: decrease, mismatch within one epoch or across exactly one switch, epoch difficulty moving faster than tau per epoch, total above pure growth / below pure shrinkage at tau per epoch from the start (Difficulty!MustReject); between that and the tight envelope the verdict is only required to equal the transcription",
+            "256-bit-scale histories are judged by construction class (legal with every switch within [0.8, 1.25]: must be accepted; arbitrary numbers: must not abort), TLC integers being 32-bit",
+        ],
+    },
     "C15": {
         "trace_module": "Trace_PeerSync",
         "mc": [MC_PEERSYNC],
